@@ -7,7 +7,7 @@
 (*                   of depth D is printed as one JSON line (input for the  *)
 (*                   conformance harness)                                   *)
 (*   -simulate       random walks through the same Next                     *)
-EXTENDS StamStore, Json, SequencesExt
+EXTENDS StamValidation, Json, SequencesExt
 
 CONSTANTS MaxRes, MaxSets, MaxAnns, MaxData, MaxKeys, Depth, Scenario, Size, Prelude, Reads, DevShift, EmitAll, P1, P2
 
@@ -79,12 +79,12 @@ BadDataMenu == {<<DB(ById("s1"), NoRef, NoRef, StrVal("v1"))>>, <<DB(ById("s1"),
 
 \* C04: every cursor pair (in range, out of range, inverted, zero-width, positive end-aligned) against every
 \* resource and relative to every annotation with a single text selection (declared below: Cursors, OffsOver)
-AnnTextLen(x) == LET lf == st.anns[x].leaves[1] IN LeafRange(st, lf)[2] - LeafRange(st, lf)[1]
+AnnTextLen1(x) == LET lf == st.anns[x].leaves[1] IN LeafRange(st, lf)[2] - LeafRange(st, lf)[1]
 OffsetTargets ==
     LET Cs(len) == {<<"B", v>> : v \in 0..(len + 1)} \cup {<<"E", -v>> : v \in 0..(len + 1)} \cup {<<"E", 1>>}
         Os(len) == {Off(b[1], b[2], e[1], e[2]) : b \in Cs(len), e \in Cs(len)}
     IN UNION {{TB("Text", ByH(r), NoRef, o) : o \in Os(Len(st.res[r].text))} : r \in LiveRes(st)}
-       \cup UNION {{TB("Ann", ByH(x), NoRef, o) : o \in Os(AnnTextLen(x))} : x \in {y \in LiveAnns(st) : HasSingleText(st.anns[y])}}
+       \cup UNION {{TB("Ann", ByH(x), NoRef, o) : o \in Os(AnnTextLen1(x))} : x \in {y \in LiveAnns(st) : HasSingleText(st.anns[y])}}
 
 \* C06: known selections are added in ascending (textual) order only, so that every *set* of known selections of
 \* the resource is reached exactly once
@@ -145,6 +145,19 @@ PreludeOps ==
                               ann("", txt(1, 2), <<e("s1", "k1", ById("d1"), "v3"), e("s2", "k1", ById("d1"), "v4"), e("s1", "k2", NoRef, "v2")>>),
                               ann("a3", TB("Ann", ById("a1"), NoRef, NoOffset), <<e("s2", "k2", NoRef, "v1"), e("s2", "k1", NoRef, "v1"), e("s1", "k1", NoRef, "v1")>>),
                               ann("", TB("Data", ById("s2"), ByH(1), NoOffset), <<e("s1", "k1", NoRef, "v1")>>)>>
+         \* 11: text validation: a text of 44 characters (Auto switches to checksums at 40), complex and relative targets
+         [] Prelude = 11 -> LET long == [i \in 1..44 |-> <<11, 12, 13, 14, 21, 31>>[1 + (i % 6)]] IN
+                            <<[ev |-> "AddResource", a |-> [id |-> "r1", text |-> long]],
+                              [ev |-> "AddResource", a |-> [id |-> "r2", text |-> <<11, 21, 51>>]],
+                              addset,
+                              ann("a1", TB("Text", ById("r1"), NoRef, Off("B", 0, "E", 0)), d1),
+                              ann("a2", TB("Text", ById("r1"), NoRef, Off("B", 2, "B", 5)), <<>>),
+                              ann("", Complex("Multi", <<TB("Text", ById("r2"), NoRef, Off("B", 2, "B", 3)), TB("Text", ById("r2"), NoRef, Off("B", 0, "B", 1))>>), <<>>),
+                              ann("a4", TB("Ann", ById("a2"), NoRef, Off("B", 1, "E", 0)), <<>>),
+                              ann("", TB("Res", ById("r2"), NoRef, NoOffset), d2),
+                              ann("", TB("Text", ById("r2"), NoRef, Off("B", 1, "B", 1)), <<>>),
+                              \* the same characters as a2, elsewhere in the text (shared validation data)
+                              ann("a7", TB("Text", ById("r1"), NoRef, Off("B", 8, "B", 11)), <<>>)>>
          \* 6: metadata annotations on keys/data/sets and annotations on annotations (chain + relative offset)
          [] OTHER -> <<addres, addset, ann("a1", txt(0, 2), d1),
                        ann("", TB("Key", ById("s1"), ById("k1"), NoOffset), <<>>),
@@ -154,7 +167,7 @@ PreludeOps ==
                        ann("", TB("Ann", ById("a1"), NoRef, Off("B", 0, "B", 1)), <<>>),
                        ann("", TB("Ann", ById("a5"), NoRef, NoOffset), d1)>>
 
-ApplyAll(s0, ops) == FoldL(LAMBDA s, op : Apply(s, op.ev, op.a).st, s0, ops)
+ApplyAll(s0, ops) == FoldL(LAMBDA s, op : ApplyV(s, op.ev, op.a).st, s0, ops)
 
 KeysOf(s) == {k \in 1..Len(st.sets[s].keys) : st.sets[s].keys[k].alive}
 DatasOf(s) == {d \in 1..Len(st.sets[s].data) : st.sets[s].data[d].alive}
@@ -162,10 +175,10 @@ DatasOf(s) == {d \in 1..Len(st.sets[s].data) : st.sets[s].data[d].alive}
 Step(ev, a) ==
     /\ Len(hist) < Depth + Len(PreludeOps)      \* depth bound as a guard (a CONSTRAINT would still generate the successors)
     /\ InDomain(st, ev, a)
-    /\ st' = Apply(st, ev, a).st
+    /\ st' = ApplyV(st, ev, a).st
     /\ hist' = Append(hist, [ev |-> ev, a |-> a])
 
-Building == Scenario # "remove"
+Building == Scenario \notin {"remove", "protect"}
 \* tuning steps do not change the specification state, so they are only worth generating when histories are emitted
 Tuning == ~EmitAll
 Adding == Scenario \notin {"remove", "offsets", "related", "textops"}
@@ -173,6 +186,8 @@ Adding == Scenario \notin {"remove", "offsets", "related", "textops"}
 TextAlphabet == CASE P2 = 1 -> {11, 41, 12} [] P2 = 2 -> {11, 22, 32} [] P2 = 3 -> {11, 31, 21} [] OTHER -> {11, 14, 41}
 TextsUpTo(n, A) == UNION {[1..k -> A] : k \in 0..n}
 Removing == Scenario \in {"all", "remove", "core"}
+\* C18: after protecting, every annotation that selects text validates (a law of the specification itself)
+InvProtected == (hist # <<>> /\ hist[Len(hist)].ev = "ProtectText") => ProtectedOK(st)
 
 Next ==
     \/ Adding /\ \E i \in ResIds, t \in Texts : Step("AddResource", [id |-> i, text |-> t])
@@ -190,6 +205,7 @@ Next ==
           Step("RemoveKey", [set |-> ByH(s), key |-> ByH(k), strict |-> strict])
     \/ Scenario = "all" /\ Step("StripAnnotationIds", [x |-> 0])
     \/ Scenario = "all" /\ Step("StripDataIds", [x |-> 0])
+    \/ Scenario \in {"all", "protect"} /\ \E m \in {"checksum", "text", "both", "auto"} : Step("ProtectText", [mode |-> m])
     \/ Scenario \in {"all", "offsets"} /\ Tuning /\ Step("ShrinkToFit", [x |-> 0])
 
 Init == st = ApplyAll(InitState, PreludeOps) /\ hist = PreludeOps
@@ -336,6 +352,7 @@ ReadOps ==
     (IF Has("lookup") THEN SetToSeq(LookupOps) ELSE <<>>)
     \o (IF Has("offsets") THEN SetToSeq(OffsetOps) \o SetToSeq(AnnOps) \o SetToSeq(ReportOps) ELSE <<>>)
     \o (IF Has("anntext") THEN SetToSeq(AnnOps) \o SetToSeq(ReportOps) ELSE <<>>)
+    \o (IF Has("validate") THEN <<RO("Validate", [x |-> 0])>> ELSE <<>>)
     \o (IF Has("bytes") THEN SetToSeq(ByteOps) ELSE <<>>)
     \o (IF Has("relrows") THEN SetToSeq(RelRowOps) ELSE <<>>)
     \o (IF Has("related") THEN SetToSeq(RelatedOps) ELSE <<>>)
